@@ -21,7 +21,7 @@ type pairState struct {
 	R    *tm.Term `json:"ref_term,omitempty"`
 	Kind string   `json:"ref_kind"` // term | self | node | sentinel | nil
 	Idx  int      `json:"ref_idx,omitempty"`
-	W    string   `json:"wrapper,omitempty"` // monotonicity: wrapper applied to e
+	W    string   `json:"wrapper,omitempty"`   // monotonicity: wrapper applied to e
 	R2   *tm.Term `json:"ref2_term,omitempty"` // isany-near: second reference
 }
 
@@ -350,6 +350,8 @@ func runC08(c *core.Ctx, r *core.Result) {
 		}
 		e := t.Build()
 		en := tm.BuildRNode(e)
+		wireBefore := tm.Encode(e)
+		verboseBefore := fmt.Sprintf("%+v", errors.Formattable(e))
 		visit(pairState{E: t, Kind: "nil"}, e, nil, en, nil, true)
 		// reflexivity
 		if eg, p := tm.IsG(e, e); p || !eg {
@@ -448,6 +450,11 @@ func runC08(c *core.Ctx, r *core.Result) {
 					reportPair(r, ps, m)
 				}
 			}
+		}
+		// Is/IsAny are read-only: after all the queries above the error
+		// encodes and prints exactly as before
+		if string(tm.Encode(e)) != string(wireBefore) || fmt.Sprintf("%+v", errors.Formattable(e)) != verboseBefore {
+			r.Violate("is-mutates|"+skeleton(t), "after Is/IsAny queries against it the error encodes or prints differently than before: "+t.String(), pairState{E: t, Kind: "self"})
 		}
 		if i%211 == 0 {
 			r.Sample(map[string]interface{}{"e": t.String(), "refs": "nil, self, nodes, sentinels, copy, perturbed, whole pool"})
